@@ -245,6 +245,201 @@ def synthetic_statements(rng, mma, pp):
 
 
 # ------------------------------------------------------------------------------------------------
+# seeded generator of programs on which the pass has something to do
+# ------------------------------------------------------------------------------------------------
+class MMGen:
+    """programs with choice rules (non static predicates), min/max aggregates of all guard shapes and uses of the
+    result predicates in objectives and sum aggregates"""
+
+    def __init__(self, rng):
+        self.r = rng
+
+    def pick(self, xs):
+        return self.r.choice(xs)
+
+    def base(self):
+        out = []
+        out.append(self.pick(["{ skill(P,ID,V) : dom(P,ID,V) }.", "{ skill(a,1,3); skill(a,2,5); skill(b,1,7) }.",
+                              "skill(P,ID,V) :- dom(P,ID,V), not nskill(P,ID,V).\nnskill(P,ID,V) :- dom(P,ID,V), not skill(P,ID,V).",
+                              "skill(a,1,3). skill(b,2,4).", "{ skill(P,ID,V) } :- dom(P,ID,V).",
+                              "skill(P,ID,V) :- dom(P,ID,V), skill(P,ID,V).", "1 { skill(P,ID,V) : val(V) } 1 :- dom(P,ID)."]))
+        out.append(self.pick(["{ person(a); person(b) }.", "person(a). person(b).", "{ person(P) } :- dom(P,_,_).",
+                              "person(P) :- skill(P,_,_).", ""]))
+        if self.r.random() < 0.3:
+            out.append(self.pick(["{ foo(X) : dom(X) }.", "{ foo(X) : dom(X) }. { bar(X) : dom(X) }.", "foo(X) :- dom(X)."]))
+        return [x for x in out if x]
+
+    def element(self, k):
+        terms = self.pick(["V,ID", "V", "V,ID", "V,P", "V+1,ID", "f(V),ID", "V,ID,P", "W", "ID", "V,V", "", "V,_",
+                           "-V,ID", "V,(ID,P)"])
+        cond = self.pick(["skill(P,ID,V)", "skill(P,ID,V)", "skill(P,ID,V)", "skill(P,ID,V), P = 42", "skill(P,ID,V), V > 2",
+                          "skill(P,ID,V), person(P)", "not skill(P,ID,V), dom(P,ID,V)", "dom(P,ID,V)", "skill(Q,ID,V)",
+                          "skill(P,ID,V), W = V*2", "-skill(P,ID,V)", "skill(P,ID,V), not person(ID)", "foo(V)",
+                          "skill(P,ID,V), foo(ID)", "skill(P,_,V)", "skill(P,ID,V0), V = V0", "#true", "skill(p,ID,V)",
+                          "skill(P,ID,V), X0 = 1", "not not skill(P,ID,V)"])
+        if k > 0 and self.r.random() < 0.5:
+            terms = self.pick(["23", "V,ID,x", "X,bar", "V"])
+            cond = self.pick(["#true", "bar(V)", "skill(P,ID,V), V*V = 24", "foo(X), X*X = 24", "skill(P,ID,V)"])
+        return f"{terms} : {cond}"
+
+    def aggregate(self):
+        f = self.pick(["#max", "#min"])
+        n = self.pick([1, 1, 1, 1, 2, 2, 3, 0]) if self.r.random() < 0.25 else 1
+        elems = "; ".join(self.element(k) for k in range(n))
+        shape = self.r.random()
+        bound = self.pick(["14", "N", "P", "X", "#sup", "#inf", "Y+1", "f(Y)"])
+        if shape < 0.45:
+            lg, rg = self.pick(["X = ", "X = ", "X = ", "42 = ", "N = ", "X0 = "]), ""
+        elif shape < 0.5:
+            lg, rg = "", " = X"
+        elif shape < 0.58:
+            lg, rg = "X = ", self.pick([" = Y", " < 5", " = X", " != N"])
+        elif shape < 0.63:
+            lg, rg = self.pick(["3 < ", "Y <= ", "3 != "]), self.pick([" < 5", " = X", " >= Y"])
+        elif shape < 0.66:
+            lg, rg = "", ""
+        else:
+            lg, rg = bound + " " + self.pick(["<", "<=", ">", ">=", "!=", "<", ">"]) + " ", ""
+        sign = self.pick(["", "", "", "", "not ", "not ", "not not "])
+        return f"{sign}{lg}{f} {{ {elems} }}{rg}"
+
+    def others(self):
+        n = self.pick([0, 1, 1, 2, 2, 3])
+        lits = [self.pick(["person(P)", "person(P)", "random(Y)", "person(P,Y)", "not bad(P)", "P != 3", "other(ID)",
+                           "q(P) : r(P)", "q(V) : r(V,P)", "X > 3", "person(Q)", "limit(N)", "skill(P,I2,V2)", "b",
+                           "Z = #count { P : person(P) }", "foo(ID,V)", "person(_)", "not person(V)", "P = (1..2)"])
+                for _ in range(n)]
+        return lits
+
+    def minmax_rule(self):
+        name = self.pick(["max", "max", "min", "best", "res"])
+        head = self.pick([f"{name}(P,X)", f"{name}(P,X)", f"{name}(P,X)", f"{name}(X,P)", f"{name}(X)", f"{name}(P,X,X)",
+                          f"{name}(P,f(X))", f"{{ {name}(P,X) }}", "", f"{name}(P,X); b", f"{name}(P,Y,X)", f"{name}(a,X)",
+                          f"{name}(P,ID,X)", "a", f"not {name}(P,X)", f"{name}(X,X)", f"{name}(P,Q,X)", f"{name}(P*3,|X|)",
+                          f"{name}(P,N)"])
+        body = self.others()
+        body.insert(self.r.randint(0, len(body)), self.aggregate())
+        if self.r.random() < 0.08:
+            body.insert(self.r.randint(0, len(body)), self.aggregate())
+        if self.r.random() < 0.1:
+            tup = self.pick(["X@1", "X@Y,P", "X@1,P", "Y@Y", "-X@2,P", "X@P,P,ID", "X+1@1,P"])
+            return f":~ {'; '.join(body)}. [{tup}]", name
+        if head:
+            return f"{head} :- {'; '.join(body)}.", name
+        return f":- {'; '.join(body)}.", name
+
+    def use(self, name):
+        v = self.pick(["V", "V", "X", "W"])
+        atom = self.pick([f"{name}(P,{v})", f"{name}(P,{v})", f"{name}(P,{v})", f"{name}({v},P)", f"{name}({v})",
+                          f"{name}(P,{v},{v})", f"{name}(P,Q,{v})", f"{name}(a,{v})", f"{name}(P,_,{v})"])
+        w = self.pick([v, v, v, f"-{v}", f"{v}*2", "1", f"{v}+P"])
+        tup = self.pick(["P", "P", "P", "", "P,x", "f(P)", "P,Q", "Q", "g(P,a)", "P+1", "(P,1)"])
+        extra = self.pick(["", "", "", ", special(P)", ", not special(P)", f", {v} > 2", ", person(Q)",
+                           f", other({v})", f", {atom}"])
+        tupc = ("," + tup) if tup else ""
+        kind = self.r.random()
+        if kind < 0.25:
+            return f"#minimize {{ {w}@{self.pick(['1', 'P', '2'])}{tupc} : {atom}{extra} }}."
+        if kind < 0.4:
+            return f"#maximize {{ {w}@1{tupc} : {atom}{extra} }}."
+        if kind < 0.55:
+            return f":~ {atom}{extra}. [{w}@{self.pick(['1', 'P'])}{tupc}]"
+        if kind < 0.6:
+            return f"#minimize {{ {w}@1{tupc} : {atom}{extra}; {w}@1{tupc} : foo(P,{v}) }}."
+        fn = self.pick(["#sum", "#sum", "#sum+", "#count", "#max"])
+        more = self.pick(["", "", "15; ", f"{w}{tupc} : mux(P,{v}); ", f"{v},z : zzz({v}); ", "1,P : person(P); "])
+        tail = self.pick(["", "", ", person(_)", ", limit(S)"])
+        sign = self.pick(["", "", "", "not "])
+        g = self.pick(["S = ", "S = ", "3 < ", "S != "])
+        return f"mysum(S) :- {sign}{g}{fn} {{ {more}{w}{tupc} : {atom}{extra} }}{tail}."
+
+    def clean_program(self):
+        """shapes of the tests / README with small variations: the pass nearly always rewrites"""
+        f = self.pick(["max", "min"])
+        lines = [self.pick(["{ skill(P,ID,V) : dom(P,ID,V) }.", "{ skill(a,1,3); skill(a,2,5); skill(b,1,7) }.",
+                            "{ skill(P,ID,V) } :- dom(P,ID,V)."]),
+                 self.pick(["{ person(a); person(b) }.", "person(a). person(b).", "{ person(P) } :- dom(P,_,_)."])]
+        rest = self.pick(["person(P)", "person(P)", "person(P), random(Y)", "person(P), not bad(P)", "person(P,Y)"])
+        kind = self.r.random()
+        if kind < 0.55:
+            head = self.pick([f"{f}(P,X)", f"{f}(P,X)", f"{f}(P,X)", f"best(P,X)", f"{f}(X,P)", ""])
+            guard = self.pick(["X = ", "X = ", "X = ", "42 = ", "N < " if f == "min" else "N > "])
+            if not head.strip() or guard != "X = ":
+                head = self.pick(["", "ok(P)"])
+            lines.append(f"{head} :- {guard}#{f} {{ V,ID : skill(P,ID,V) }}, {rest}.")
+            name = head.split("(")[0] if "(" in head else None
+            if name and name != "ok":
+                v = "V"
+                atom = head.replace("X", v)
+                for _ in range(self.pick([0, 1, 1, 2])):
+                    w = self.pick([v, v, "-" + v])
+                    lines.append(self.pick([f"#minimize {{ {w}@P,P : {atom} }}.", f"#maximize {{ {w}@1,P : {atom} }}.",
+                                            f":~ {atom}, special(P). [{w}@1,P]",
+                                            f"mysum(S) :- S = #sum {{ 15; {w},P : {atom} }}, person(_).",
+                                            f"mysum(S) :- S = #sum+ {{ {w},P,x : {atom}, special(P); 1,P : person(P) }}.",
+                                            f"#minimize {{ {w}@1 : {atom} }}."]))
+        elif kind < 0.8:
+            op = self.pick([">", ">="]) if f == "min" else self.pick(["<", "<="])
+            neg = self.r.random() < 0.35
+            if neg:
+                op = {"<": ">", "<=": ">=", ">": "<", ">=": "<="}[op]
+            elems = self.pick(["V,ID : skill(P,ID,V)", "V : skill(P,ID,V)", "V,ID : skill(P,ID,V); V,x : skill(Q,ID,V), person(Q)",
+                               "V,ID : skill(P,ID,V), V != 4"])
+            lines.append(f"a(P) :- {rest}, {'not ' if neg else ''}{self.pick(['14', 'N', 'P'])} {op} #{f} {{ {elems} }}.")
+        else:
+            tup = self.pick(["X@1,P", "X@Y,P", "X@1", "-X@2,P"])
+            lines.append(f":~ X = #{f} {{ V,ID : skill(P,ID,V) }}, {rest}. [{tup}]")
+        return "\n".join(lines)
+
+    def program(self):
+        if self.r.random() < 0.45:
+            return self.clean_program()
+        lines = self.base()
+        names = []
+        for _ in range(self.pick([1, 1, 1, 2, 2, 3])):
+            rule, name = self.minmax_rule()
+            names.append(name)
+            if self.r.random() < 0.12 and len(names) > 1:
+                lines[-1] = lines[-1] + " " + rule          # two rules on one source line
+            else:
+                lines.append(rule)
+        if self.r.random() < 0.15:
+            lines.append(self.pick([f"{names[0]}(P,X) :- extra(P,X).", f"{names[0]}(1,2).", f"#show {names[0]}/2.",
+                                    f"ok :- {names[0]}(P,X), X > 3."]))
+        for _ in range(self.pick([0, 1, 1, 2, 3])):
+            lines.append(self.use(self.pick(names)))
+        if self.r.random() < 0.12:
+            k = self.r.randint(1, len(lines) + 1)
+            f = self.pick(["max", "min"])
+            lines.insert(self.r.randint(0, len(lines)), self.pick([
+                f"__dom___{f}_0_{k}(1).", f"__{f}_0_{k}(P,X) :- person(P), X = 1.", f"{{ __dom___{f}_0_{k}(1..3) }}.",
+                f"__chain_0_0__{f}___dom___{f}_0_{k}(1,2).", f"__next_0_0__dom___{f}_0_{k}(1,2).",
+                f"__min_0_0__dom___{f}_0_{k}(1).", f"p(__VAR__{f}_0_{k}) :- q(__VAR__{f}_0_{k})."]))
+        if self.r.random() < 0.1:
+            self.r.shuffle(lines)
+        return "\n".join(lines)
+
+
+def generated(rng, n):
+    g = MMGen(rng)
+    out = []
+    for i in range(n):
+        for _ in range(20):
+            text = g.program()
+            if try_parse(text) is not None:
+                out.append({"origin": f"mmgen:{i}", "text": text})
+                break
+    return out
+
+
+N_TARGETED = int(os.environ.get("MINMAX_TARGETED", "250"))
+
+
+def with_targeted(inputs, rng):
+    return list(inputs) + generated(rng, N_TARGETED)
+
+
+# ------------------------------------------------------------------------------------------------
 class CharVars:
     name = "minmax_charvars"
     imports = IMPORTS
@@ -282,7 +477,7 @@ class Analysis:
     def cases(self, inputs, rng):
         from ngo.minmax_aggregates import MinMaxAggregator
         quiet()
-        for text, pp, t, fresh in prepared(inputs, self.name):
+        for text, pp, t, fresh in prepared(with_targeted(inputs, rng), self.name):
             ins = rand_inputs(rng, pp)
             hit = False
             js = []
@@ -327,7 +522,7 @@ class SimpleTranslation:
         from ngo.minmax_aggregates import MinMaxAggregator
         quiet()
         seen = set()
-        for text, pp, t, fresh in prepared(inputs, self.name):
+        for text, pp, t, fresh in prepared(with_targeted(inputs, rng), self.name):
             for i, s in enumerate(pp):
                 if not has_minmax(s) or str(s) in seen:
                     continue
@@ -356,7 +551,7 @@ class ChainTranslation:
     def cases(self, inputs, rng):
         from ngo.minmax_aggregates import MinMaxAggregator
         quiet()
-        for text, pp, t, fresh in prepared(inputs, self.name):
+        for text, pp, t, fresh in prepared(with_targeted(inputs, rng), self.name):
             idxs = [i for i, s in enumerate(pp) if has_minmax(s)]
             for i in idxs[:6]:
                 ins = rand_inputs(rng, pp)
@@ -388,7 +583,7 @@ class ProcessRule:
     def cases(self, inputs, rng):
         from ngo.minmax_aggregates import MinMaxAggregator
         quiet()
-        for text, pp, t, fresh in prepared(inputs, self.name):
+        for text, pp, t, fresh in prepared(with_targeted(inputs, rng), self.name):
             for rnd in range(2):
                 ins = [] if rnd == 0 else rand_inputs(rng, pp)
                 if rnd == 1 and not ins:
@@ -442,7 +637,7 @@ class ReplaceMinimize:
 
     def cases(self, inputs, rng):
         quiet()
-        for text, pp, t, fresh in prepared(inputs, self.name):
+        for text, pp, t, fresh in prepared(with_targeted(inputs, rng), self.name):
             ins = rand_inputs(rng, pp) if rng.random() < 0.5 else []
             mma, ret, minimizes, exc = after_phase1(fresh, ins)
             if exc is not None:
@@ -492,7 +687,7 @@ class SplitElement:
     def cases(self, inputs, rng):
         from ngo.utils.ast import LOC
         quiet()
-        for text, pp, t, fresh in prepared(inputs, self.name):
+        for text, pp, t, fresh in prepared(with_targeted(inputs, rng), self.name):
             ins = rand_inputs(rng, pp) if rng.random() < 0.5 else []
             mma, ret, _, exc = after_phase1(fresh, ins)
             if exc is not None:
@@ -548,7 +743,7 @@ class Execute:
     def cases(self, inputs, rng):
         from ngo.minmax_aggregates import MinMaxAggregator
         quiet()
-        for text, pp, t, fresh in prepared(inputs, self.name):
+        for text, pp, t, fresh in prepared(with_targeted(inputs, rng), self.name):
             for rnd in range(2):
                 ins = [] if rnd == 0 else rand_inputs(rng, pp)
                 if rnd == 1 and not ins:
